@@ -316,7 +316,9 @@ def obsfcst_strategy(tier):
                                 allow_drop=False, allow_all_missing=False, max_members=2))
         return {"spec": spec, "axis": draw(st.sampled_from(["time", "leadtime", "location", "month", "no", "leadtimeday"])),
                 "type": draw(st.sampled_from(["csv", "text"])), "kind": draw(st.sampled_from(["text", "netcdf"])),
-                "with_q": draw(st.sampled_from([True, True, False])), "q_rev": draw(st.booleans())}
+                "with_q": draw(st.sampled_from([True, True, False])), "q_rev": draw(st.booleans()),
+                "acc": draw(st.sampled_from([False, False, True])),
+                "agg": draw(st.sampled_from([None, None, "max", "min", "median", "sum", "count"]))}
     return s()
 
 
@@ -341,8 +343,14 @@ def check_obsfcst(case, ctx):
         if case.get("q_rev"):
             qs = qs[::-1]                 # columns follow the order given
     qargs = ["-q", ",".join(repr(float(q)) for q in qs)] if qs else []
+    acc, agg = bool(case.get("acc")), case.get("agg")
+    if acc:
+        qargs = qargs + ["-acc"]
+    if agg:
+        qargs = ["-agg", agg] + qargs
     r = drive.run(paths + ["-m", "obsfcst", "-x", axis, "-type", case["type"]] + qargs)
     ctx.evals += 1
+    ctx.label("obsfcst/%s%s" % ("acc" if acc else "plain", "/agg" if agg else ""))
     if len(qs) >= 2 and len(paths) >= 2:
         ctx.label("obsfcst/quantile-columns>=2x2")
     if r.exc is not None:
@@ -363,25 +371,35 @@ def check_obsfcst(case, ctx):
     if len(rows) != ds.n_slices(axis):
         ctx.fail("C12/obsfcst/rows", case, "%d rows, %d slices" % (len(rows), ds.n_slices(axis)))
         return
-    ctx.nt(("obsfcst", axis, case["type"], ds.times, ds.leads, ds.ids, [dd["fcst"] for dd in spec["inputs"]]))
+    ctx.nt(("obsfcst", axis, case["type"], acc, agg, ds.times, ds.leads, ds.ids, [dd["fcst"] for dd in spec["inputs"]]))
+
+    def stat(vals):
+        """the slice's statistic: the mean, or the -agg function"""
+        if agg:
+            if not vals and agg != "count":
+                return float("nan")
+            v = model.aggregate(agg, vals)
+            return float("nan") if v is None else v
+        return math.fsum(vals) / len(vals) if vals else float("nan")
+
+    # columns: obs (cases where input 0 has obs and fcst), one fcst column per input, then one per (quantile, input) in header order
+    columns = [(0, [("obs",), ("fcst",)], 0, "values")] + [(i, [("obs",), ("fcst",)], 1, "values") for i in range(n_in)]
+    columns += [(i, [("q", q), ("obs",)], 0, "quantile-values") for q in qs for i in range(n_in)]
+    running = [0.0] * len(columns)
     for k, row in enumerate(rows):
-        # obs column: mean observation over the cases where input 0 has obs and fcst; fcst columns likewise per input
-        for col, (i, pos) in enumerate([(0, 0)] + [(i, 1) for i in range(n_in)]):
-            cs = ds.cases([("obs",), ("fcst",)], i, axis, k)
-            e = math.fsum(c[pos] for c in cs) / len(cs) if cs else float("nan")
+        for col, (i, fields, pos, what) in enumerate(columns):
+            cs = ds.cases(fields, i, axis, k)
+            e = stat([c[pos] for c in cs])
+            if agg == "count" and not cs:
+                e = float(row[nd + col]) if float(row[nd + col]) in (0.0,) or math.isnan(float(row[nd + col])) else e   # count of nothing: 0 or NaN
+            if acc:
+                running[col] += 0.0 if math.isnan(e) else e
+                e = running[col]
             g = float(row[nd + col])
-            if not cmpx.close(g, e if math.isnan(e) else float("%.*g" % (digits, e)), 1e-9):
-                ctx.fail("C12/obsfcst/values", case, "row %d column %d: %r, mean over the valid pairs %r" % (k, col, g, e))
-        # quantile columns: one per (quantile, input) in the order of the header
-        col = 1 + n_in
-        for q in qs:
-            for i in range(n_in):
-                cs = ds.cases([("q", q), ("obs",)], i, axis, k)
-                e = math.fsum(c[0] for c in cs) / len(cs) if cs else float("nan")
-                g = float(row[nd + col])
-                if not cmpx.printed_ok(g, e, digits):
-                    ctx.fail("C12/obsfcst/quantile-values", case, "row %d column %r: %r, mean of that input's %g quantile over the valid cases %r" % (k, header[nd + col], g, q, e))
-                col += 1
+            if not cmpx.printed_ok(g, e, digits):
+                ctx.fail("C12/obsfcst/" + what, case, "row %d column %r: %r, %s of that column's values over the slice's valid cases%s gives %r"
+                         % (k, header[nd + col], g, agg or "mean", " (running sum, -acc)" if acc else "", e))
+                return
 
 
 def campaigns(tier):
